@@ -95,6 +95,7 @@ type NilAnalysis struct {
 	lenSum  map[*ssa.Function][]*lenSummary
 	fieldLo map[fieldLoKey]int
 	byName  map[*ssa.Function]map[string]ssa.Value
+	litF    map[string]bool
 }
 
 func isNilable(t types.Type) bool {
